@@ -116,6 +116,8 @@ pub struct Outcome {
     pub target: Option<Vec<u8>>,
     pub target_is_file: bool,
     pub trace: Vec<String>,
+    /// `file://` URL of the directory the process compiled in (empty: not known)
+    pub root_url: String,
 }
 
 pub struct Cfg {
@@ -302,6 +304,7 @@ fn execute_inner(c: &Cfg, world: &World, scn: &Scenario, planted: Option<&[u8]>)
         target,
         target_is_file,
         trace,
+        root_url: url::Url::from_directory_path(&root).map(|u| u.to_string()).unwrap_or_default(),
     }
 }
 
@@ -406,6 +409,18 @@ pub fn check_fault_free(scn: &Scenario, o: &Outcome) -> Option<Violation> {
             }
             if !o.trace.iter().any(|l| l.starts_with(&format!("open {t} flags=w"))) {
                 return v("target-not-written", "exit 0 without an open-for-write of the target".into());
+            }
+            // the same sources at the same location through the pipeline in process: one document
+            if !scn.with_base && !o.root_url.is_empty() {
+                if let Ok(doc) = compile_to_yaml(&o.root_url, &scn.files, &main_path(scn)) {
+                    let a: Result<serde_yaml::Value, _> = serde_yaml::from_slice(bytes);
+                    let b: Result<serde_yaml::Value, _> = serde_yaml::from_str(&doc);
+                    if let (Ok(a), Ok(b)) = (a, b) {
+                        if a != b {
+                            return v("document-differs-from-the-pipelines", format!("exit 0, but the target ({} bytes) is not the document the same sources give in process ({} bytes)", bytes.len(), doc.len()));
+                        }
+                    }
+                }
             }
         }
         (Ok(_), e) => {
@@ -861,6 +876,20 @@ pub fn run(seed: u64, run: u64) -> Report {
     };
     let mut files = hist::files_of(&gen::render(&ast, &layout));
     let mut probes: Vec<String> = Vec::new();
+    if wl.chance(1, 12) {
+        // a source file beyond 64 KiB (and beyond any single read or pipe buffer): a long
+        // comment ahead of the module
+        let paths: Vec<String> = files.keys().cloned().collect();
+        let p = wl.pick(&paths).clone();
+        let lines = wl.range(900, 1400);
+        let mut pad = String::with_capacity(lines * 80);
+        for i in 0..lines {
+            pad.push_str(&format!("// {i:05} generated header, do not edit ........................................\n"));
+        }
+        let t = files.get_mut(&p).unwrap();
+        t.insert_str(0, &pad);
+        probes.push("source_file_over_64k".into());
+    }
     if wl.chance(1, 2) {
         let (phase, f) = hist::inject_error(&files, &mut wl);
         files = f;
